@@ -34,9 +34,8 @@ Proof. intros H. unfold read_range. replace (off + len <=? N.of_nat (length f)) 
 Lemma add_offset_ok o idx : Forall (fun p => fst p + o <= u64_max) idx ->
   tidx_add_offset o idx = Ok (map (fun p => (fst p + o, snd p)) idx).
 Proof.
-  induction idx as [|[off len] r IH]; intros H; [reflexivity|]. inversion H as [|? ? H1 Hr]; subst. cbn [fst] in H1.
-  cbn [tidx_add_offset map fst snd]. replace (u64_max <? off + o) with false by (symmetry; apply N.ltb_ge; exact H1).
-  rewrite (IH Hr). reflexivity.
+  unfold tidx_add_offset. induction idx as [|[off len] r IH]; intros H; [reflexivity|]. inversion H as [|? ? H1 Hr]; subst. cbn [fst] in H1.
+  cbn [tidx_add_offset_v N.eqb andb map fst snd]. rewrite (IH Hr). cbn. rewrite N.min_l by exact H1. reflexivity.
 Qed.
 
 Lemma write_tile_index_length st b : length (w_index (write_tile st b)) = S (length (w_index st)).
